@@ -556,14 +556,18 @@ package moss
 //@ func checkHeader(file File) error
 //@   trusted reads the first page through the handle it is given
 
+// The data files are tried from the newest name to the oldest (the recovery
+// of C05 starts from the most recent file that can be opened and parsed).
 //@ func openStore(dir string, options StoreOptions) (*Store, error)
-//@   props C18
-//@   attr obligations call-requires
+//@   props C18 C05 C04
+//@   attr obligations call-requires decreases
 //@   attr only-labels notReadOnly readOnlyFlag
 //@   requires @modeLinked readOnlyMode() == options.CollectionOptions.ReadOnly
 //@   modifies *
 //@   loop 1: invariant options.CollectionOptions.ReadOnly == readOnlyMode()
 //@   loop 2: invariant options.CollectionOptions.ReadOnly == readOnlyMode()
+//@   loop 2: invariant @newestFirst -1 <= i && i < len(fnames)
+//@   loop 2: decreases i + 1
 
 //@ func os.OpenFile
 //@   trusted operating system primitive
